@@ -399,11 +399,11 @@ func runC03(s c03Scen, c *ev.Case) *ev.Violation {
 			r.mu.Lock()
 			var last *c03Event
 			open := map[uint16]bool{}
+			// open: identifiers of flows S has not completed, whichever connection they started on (a flow keeps its
+			// identifier across reconnects; repeating an old acknowledgement whose identifier has been given to such a flow
+			// would complete THAT flow); last: the last final acknowledgement sent on the current connection
 			for k := range r.events {
 				e := r.events[k]
-				if e.Epoch != r.epoch {
-					continue
-				}
 				switch e.Kind {
 				case "rpub":
 					if e.QoS > 0 {
@@ -413,8 +413,10 @@ func runC03(s c03Scen, c *ev.Case) *ev.Violation {
 					open[e.ID] = true
 				case "spuback", "spubcomp":
 					delete(open, e.ID)
-					cp := e
-					last = &cp
+					if e.Epoch == r.epoch {
+						cp := e
+						last = &cp
+					}
 				case "spubrecerr":
 					delete(open, e.ID)
 				}
@@ -610,6 +612,10 @@ func runC03(s c03Scen, c *ev.Case) *ev.Violation {
 						if g.id == e.ID && g.unsure {
 							g.state, ok = "rel", true
 							g.unsure = false
+							// the broker had not got the PUBCOMP: this PUBREL is the retransmission of the flow on this connection
+							if g.pubEpoch < ep {
+								retransmitted[g.uid] = true
+							}
 						}
 					}
 					if !ok {
